@@ -55,6 +55,16 @@ macro_rules! probe_line {
     };
 }
 
+// items the `paths` grammar names through `crate::` and `super::`
+#[derive(Debug, Clone, PartialEq, Eq)]
+pub struct Num(pub u32);
+#[derive(Debug, Clone, PartialEq, Eq)]
+pub struct Up2(pub char);
+pub fn ext_num(s: &str) -> Result<(Num, usize), &'static str> {
+    let n = s.bytes().take_while(|b| b.is_ascii_digit()).count();
+    if n == 0 || n > 6 { Err("number") } else { Ok((Num(s[..n].parse().unwrap()), n)) }
+}
+
 include!(concat!(env!("OUT_DIR"), "/mods.rs"));
 
 struct Rng(u64);
@@ -73,6 +83,7 @@ fn alphabet(name: &str) -> &'static [&'static str] {
         "escapes" => &["\\", "n", "\n", "\r\n", "'", "\"", "A", "é", "ő", "\u{1F600}", "\u{1F601}", "\t", "tab\\n", "TAB\\N", " "],
         "keywords" => &["type", "fn", "loop", "match", " ", "x"],
         "rawable" => &["\\", "n", "\n", "'", "''", "ab", "é", " "],
+        "paths" => &["n", "w", "c", "t", "u", "12", "7", "ab", "q", "Z", "K", " "],
         "calc" => &["1", "23", "+", "-", "*", "/", "(", ")", " "],
         "pos" => &["ab", "é", "=", "+", "\"", "x y", " ", "\n", "# c\n", "7", "k"],
         "inc_a" => &["h", "ab", ",", "[", "]", "12", " "],
